@@ -363,6 +363,7 @@ func shippedMat(name string) align.SubstitutionMatrix {
 const protAlpha = "ARNDCQEGHILKMFPSTWYVBZX"
 
 func genAlign(c *Ctx, prop string) {
+	alignRound4(c, prop)
 	opens := []int{0}
 	switch prop {
 	case "C08":
@@ -552,6 +553,8 @@ func stdComp(b byte) byte {
 }
 
 func genC12(c *Ctx) {
+	sequtilRound4_12(c)
+	canonLongStops(c)
 	// all 256 single bytes: accept/panic boundary
 	for b := 0; b < 256; b++ {
 		src := []byte{byte(b)}
@@ -697,6 +700,7 @@ func genC12(c *Ctx) {
 }
 
 func genC13(c *Ctx) {
+	sequtilRound4_13(c)
 	sequtilExtras13(c)
 	for b := 0; b < 256; b++ {
 		got := sequtil.Ntoi(byte(b))
@@ -812,6 +816,7 @@ func stdAmino(cod []byte) byte {
 }
 
 func genC14(c *Ctx) {
+	sequtilRound4_14(c)
 	sequtilExtras14(c)
 	// all 64 codons x 8 case patterns
 	for i := 0; i < 64; i++ {
@@ -1070,6 +1075,7 @@ func runTrieHistory(c *Ctx, ops []string, probes []string, kind string) {
 }
 
 func genC15(c *Ctx) {
+	trieSparse(c)
 	trieExtras(c)
 	// exhaustive histories over {a,b}, strings <= 2 (thorough 3), depth <= 3 (thorough 4)
 	var strs []string
@@ -1144,6 +1150,7 @@ func genC15(c *Ctx) {
 // ======================= regions =======================
 
 func genC16(c *Ctx) {
+	regionsRound4(c)
 	run := func(starts, ends []int, queries []int, kind string) {
 		var idx *regions.Index
 		s0, e0 := append([]int(nil), starts...), append([]int(nil), ends...)
@@ -1315,6 +1322,7 @@ func u64s(v []uint64) string {
 }
 
 func genC17(c *Ctx) {
+	mashRound4(c)
 	mashExtras(c)
 	randDNA := func(n int) []byte {
 		s := c.bytesFrom([]byte("ACGT"), n)
@@ -1496,6 +1504,17 @@ func recPre(n *newick.Node, out *[]string) {
 		recPre(ch, out)
 	}
 }
+// recPreCapped is recPre that gives up after cap nodes (a damaged tree may contain a cycle).
+func recPreCapped(n *newick.Node, out *[]string, cap int) {
+	if len(*out) > cap {
+		return
+	}
+	*out = append(*out, n.Name)
+	for _, ch := range n.Children {
+		recPreCapped(ch, out, cap)
+	}
+}
+
 func recPost(n *newick.Node, out *[]string) {
 	for _, ch := range n.Children {
 		recPost(ch, out)
@@ -1505,6 +1524,15 @@ func recPost(n *newick.Node, out *[]string) {
 
 func travCase(c *Ctx, root *newick.Node, kind string, withModel bool, stops bool) {
 	for _, pre := range []bool{true, false} {
+		// the expected order is computed first, on the tree as it was built (a traversal that
+		// damages the tree must not be able to damage the expectation, or to send it into a cycle)
+		var want []string
+		if pre {
+			recPre(root, &want)
+		} else {
+			recPost(root, &want)
+		}
+		limit := len(want) + 16
 		var got []string
 		reuse := ""
 		st := safe(func() string {
@@ -1514,6 +1542,9 @@ func travCase(c *Ctx, root *newick.Node, kind string, withModel bool, stops bool
 			}
 			for n := range it {
 				got = append(got, n.Name)
+				if len(got) > limit {
+					return "NONTERM"
+				}
 			}
 			// the same iterator value ranged over again, and after an early break, starts afresh
 			var again, third []string
@@ -1525,25 +1556,50 @@ func travCase(c *Ctx, root *newick.Node, kind string, withModel bool, stops bool
 			}
 			for n := range it {
 				third = append(third, n.Name)
+				if len(third) > limit {
+					return "NONTERM"
+				}
 			}
 			if strings.Join(third, ",") != strings.Join(got, ",") || (len(got) >= 2 && strings.Join(again, ",") != strings.Join(got[:2], ",")) {
 				reuse = "ranging again over the same iterator value does not yield every node exactly once"
 			}
+			// two runs of the same iterator value active at once (a traversal nested in itself), after an earlier complete run
+			outer, inner := 0, 0
+			if len(want) > 300 {
+				return ""
+			}
+			for range it {
+				outer++
+				if outer > limit {
+					return "NONTERM"
+				}
+				k := 0
+				for range it {
+					k++
+					if k > limit {
+						return "NONTERM"
+					}
+				}
+				inner += k
+			}
+			if outer != len(got) || inner != len(got)*len(got) {
+				reuse = "nested traversals over the same iterator value interfere with each other"
+			}
 			return ""
 		})
-		var want []string
-		if pre {
-			recPre(root, &want)
-		} else {
-			recPost(root, &want)
-		}
+		var after []string
+		afterOK := safe(func() string { recPreCapped(root, &after, limit); return "" })
 		oracle := ""
 		if st == "PANIC" {
 			oracle = "traversal panicked"
+		} else if st == "NONTERM" {
+			oracle = "traversal yields more nodes than the tree has (does not terminate)"
 		} else if strings.Join(got, ",") != strings.Join(want, ",") {
 			oracle = "traversal differs from the recursive pre-/post-order"
 		} else if reuse != "" {
 			oracle = reuse
+		} else if pre && (afterOK == "PANIC" || strings.Join(after, ",") != strings.Join(want, ",")) {
+			oracle = "traversal modified the tree"
 		}
 		nstops := 0
 		if stops && oracle == "" {
@@ -1683,7 +1739,7 @@ func genTrees(c *Ctx, stops bool) {
 	c.add(Case{Kind: "star", Nontrivial: true, Oracle: o, Note: "star with 19999 children"})
 }
 
-func genC19(c *Ctx) { genTrees(c, false); arenaTrees(c) }
+func genC19(c *Ctx) { wideTrees(c); genTrees(c, false); arenaTrees(c) }
 
 func genC18Iterators(c *Ctx) {
 	genTrees(c, true)
@@ -2006,6 +2062,7 @@ func splitSpace(b []byte) [][]byte {
 }
 
 func genC20(c *Ctx) {
+	ncbiNumerals(c)
 	matrixExtras(c)
 	// ReadNCBI on rendered tables
 	for i := 0; i < c.n(300); i++ {
